@@ -437,7 +437,11 @@ def full_lists(ctx, obs, chunk=40, budget_s=420):
             continue
         total += n
         apc, Lc = ap_coq(ap), coq_q(L)
-        for c0 in range(0, n, chunk):
+        # chunk order: a fixed stride permutation, so that under a time budget the compared chunks are spread over the whole list
+        starts = list(range(0, n, chunk))
+        stride = 7919 if len(starts) % 7919 else 7907
+        starts = [starts[(k * stride) % len(starts)] for k in range(len(starts))]
+        for c0 in starts:
             idx = range(c0, min(n, c0 + chunk))
             parts, tacs = [], []
             for i in idx:
